@@ -64,6 +64,8 @@ unsigned char f_ruc(unsigned char v, signed char w);
 long long f_rll(long long v, unsigned v2);
 bool f_rb(bool v);
 float f_rf(float v);
+typedef void (*fnret_t)(void);
+fnret_t f_fnret(void (*gf)(void));
 // real C library (noop static / dylib)
 int g_lib_id(void);
 long g_add3(long a, int b, unsigned short c);
@@ -86,10 +88,11 @@ enum FnId
   FN_RLL,
   FN_RB,
   FN_RF,
+  FN_FNRET,
   FN_COUNT
 };
 static const char* kFnName[] = { "f_ints", "f_fp", "f_enum", "f_ptrs", "f_fn", "f_struct", "f_ret_struct", "f_void", "f_many", "f_u",
-                                 "f_rs", "f_ruc", "f_rll", "f_rb", "f_rf" };
+                                 "f_rs", "f_ruc", "f_rll", "f_rb", "f_rf", "f_fnret" };
 
 struct GuestRec
 {
@@ -206,6 +209,11 @@ struct G
     grec(FN_RB, LIB, { (uint64_t)v });
     return (g_result_bits & 1) != 0;
   }
+  static uint32_t fnret(uint32_t gf)
+  {
+    grec(FN_FNRET, LIB, { gf });
+    return (uint32_t)g_result_bits;
+  }
   static float rf(float v)
   {
     grec(FN_RF, LIB, { fbits(v) });
@@ -225,7 +233,7 @@ static std::vector<Sym> make_lib()
                          { "f_many", (void*)&G<LIB>::many },     { "f_u", (void*)&G<LIB>::u },
                          { "f_rs", (void*)&G<LIB>::rs },         { "f_ruc", (void*)&G<LIB>::ruc },
                          { "f_rll", (void*)&G<LIB>::rll },       { "f_rb", (void*)&G<LIB>::rb },
-                         { "f_rf", (void*)&G<LIB>::rf } };
+                         { "f_rf", (void*)&G<LIB>::rf },         { "f_fnret", (void*)&G<LIB>::fnret } };
   if (LIB == 1)
     std::reverse(v.begin(), v.end()); // same names, different table indices
   return v;
@@ -257,10 +265,13 @@ enum Kind
   N_INVOKE,
   I_LOOKUP_FAIL,
   I_SMALL,
+  I_FNRET,
+  I_BYNAME,
   K_COUNT
 };
 static const char* kKind[] = { "ints",   "fp",     "enum", "ptrs",    "fn",     "struct",    "ret_struct",   "void",        "many",
-                               "u",      "addr",   "destroy", "create", "dylib_invoke", "dylib_destroy", "dylib_create", "noop_invoke", "lookup_fails", "small_types" };
+                               "u",      "addr",   "destroy", "create", "dylib_invoke", "dylib_destroy", "dylib_create", "noop_invoke", "lookup_fails", "small_types",
+                               "fn_pointer_in_and_out", "lookup_by_transient_name" };
 static_assert(sizeof(kKind) / sizeof(kKind[0]) == K_COUNT);
 
 typedef __int128 i128;
@@ -299,7 +310,7 @@ struct InvokeWorld : World
     int nsbx = (int)r.range(1, 3);
     p.cfg = { nsbx, r.chance(1, 2) };
     int n = (int)r.range(4, thorough ? 50 : 30);
-    std::vector<unsigned> w = { 10, 4, 4, 6, 8, 5, 5, 4, 4, 8, 8, 3, 4, 6, 2, 3, 2, 5, 9 };
+    std::vector<unsigned> w = { 10, 4, 4, 6, 8, 5, 5, 4, 4, 8, 8, 3, 4, 6, 2, 3, 2, 5, 9, 6, 6 };
     for (auto& x : w)
       if (r.chance(1, 6))
         x = 0;
@@ -311,6 +322,9 @@ struct InvokeWorld : World
       o.a[2] = (int64_t)(r.next() >> 1); // value seed
       o.a[3] = (int64_t)(r.chance(1, 3) ? (r.next() >> 1) : (uint64_t)pick_int(r, 33, true) & 0x7fffffffffffffffLL); // result bits
       o.a[4] = (int64_t)r.below(FN_COUNT);
+      o.a[5] = (int64_t)r.below(FN_COUNT);
+      if (o.kind == I_FNRET)
+        o.a[3] = r.chance(1, 3) ? 0 : (int64_t)r.range(1, 40); // function index the guest returns (0 = null)
       p.ops.push_back(o);
     }
     return p;
@@ -776,6 +790,89 @@ struct InvokeWorld : World
       C->violate("C11", "wrong_result@small_types", "result of scalar type #%d does not equal the reference back-conversion of what the guest returned", which);
   }
 
+  // function pointers in both directions, null included: null <-> 0 is RLBox's business, the backend answers garbage for it (C04)
+  void op_fnret(SbxM& m, const Op& op)
+  {
+    int form = (int)((uint64_t)op.a[1] % 3); // 0: address of f_void; 1: null tainted function pointer; 2: nullptr literal
+    uint32_t want_gf = form == 0 ? (uint32_t)sym_index(m.lib, "f_void") : 0;
+    uint32_t rb = (uint32_t)op.a[3];
+    g_result_bits = rb;
+    Expect e;
+    e.args = { want_gf };
+    size_t before = g_glog.size();
+    TT<void (*)(void)> got = nullptr;
+    uint32_t null_rep = 0;
+    Outcome o = attempt([&] {
+      TT<void (*)(void)> gf = nullptr;
+      if (form == 0)
+        gf = m.sb->get_sandbox_function_address(f_void);
+      else
+        null_rep = (uint32_t)gf.UNSAFE_sandboxed(*m.sb);
+      if (form == 2)
+        got = m.sb->invoke_sandbox_function(f_fnret, nullptr);
+      else
+        got = m.sb->invoke_sandbox_function(f_fnret, gf);
+    });
+    C->ev("fn_pointer_in_and_out form %d returns %u -> %s", form, rb, oname(o));
+    if (form != 0)
+      C->probe("null_function_pointer_passed_to_sandbox");
+    if (null_rep != 0) {
+      C->violate("C04", "null_function_pointer_not_zero@fn_pointer_in_and_out", "UNSAFE_sandboxed(sandbox) of a null tainted function pointer is %u", null_rep);
+      return;
+    }
+    if (o == OK && g_glog.size() == before + 1 && form != 0 && g_glog.back().fn == FN_FNRET && g_glog.back().args[0] != 0) {
+      C->violate("C04", "null_function_pointer_not_zero@fn_pointer_in_and_out", "the guest received %llu for a null function pointer argument", (unsigned long long)g_glog.back().args[0]);
+      return;
+    }
+    if (!judge(m, FN_FNRET, o, before, e, "fn_pointer_in_and_out"))
+      return;
+    uint32_t back = 0;
+    bool is_null = false, eq_null = false;
+    Outcome o2 = attempt([&] {
+      back = (uint32_t)got.UNSAFE_sandboxed(*m.sb);
+      is_null = got.UNSAFE_unverified() == nullptr;
+      eq_null = got == nullptr;
+    });
+    if (rb == 0)
+      C->probe("null_function_pointer_returned_by_sandbox");
+    if (o2 != OK || is_null != (rb == 0) || eq_null != (rb == 0))
+      C->violate("C04", "zero_function_pointer_not_null@fn_pointer_in_and_out", "guest returned index %u: null=%d ==nullptr %d (%s)", rb, (int)is_null, (int)eq_null, oname(o2));
+    else if (back != rb)
+      C->violate("C04", "wrong_representation@fn_pointer_in_and_out", "guest returned index %u, round trip gives %u", rb, back);
+  }
+
+  // Names reach lookup_symbol / INTERNAL_invoke_with_func_name as const char*: nothing says the storage outlives the call.
+  // The name is passed in a scratch buffer that is reused for another name straight afterwards.
+  void op_byname(SbxM& m, const Op& op)
+  {
+    static char namebuf[32];
+    int fn = (int)((uint64_t)op.a[4] % FN_COUNT);
+    int other = (int)((uint64_t)op.a[5] % FN_COUNT);
+    snprintf(namebuf, sizeof namebuf, "%s", kFnName[fn]);
+    void* got = nullptr;
+    size_t before = g_glog.size();
+    bool invoke_too = fn == FN_VOID && (op.a[1] & 1);
+    Outcome o = attempt([&] {
+      got = m.sb->lookup_symbol(namebuf);
+      if (invoke_too)
+        m.sb->template INTERNAL_invoke_with_func_name<decltype(f_void)>(namebuf);
+    });
+    // the caller's buffer now holds something else
+    snprintf(namebuf, sizeof namebuf, "%s", kFnName[other]);
+    C->probe("name_buffer_reused_after_lookup");
+    C->ev("lookup_by_transient_name %s (then buffer := %s) -> %s", kFnName[fn], kFnName[other], oname(o));
+    void* want = libs()[(size_t)m.lib][(size_t)sym_index(m.lib, kFnName[fn]) - 1].host;
+    if (o != OK || got != want) {
+      C->violate("C11", "wrong_symbol@lookup_by_transient_name", "%s of library %d did not resolve to that function (%s)", kFnName[fn], m.lib, oname(o));
+      return;
+    }
+    m.looked[fn] = true;
+    if (invoke_too) {
+      Expect e;
+      judge(m, FN_VOID, OK, before, e, "lookup_by_transient_name");
+    }
+  }
+
   void sim_create(SbxM& m, int lib)
   {
     Outcome o = attempt([&] { m.sb->create_sandbox(lib); });
@@ -875,6 +972,14 @@ struct InvokeWorld : World
         case I_SMALL:
           if (m.created)
             op_small(m, op);
+          break;
+        case I_FNRET:
+          if (m.created)
+            op_fnret(m, op);
+          break;
+        case I_BYNAME:
+          if (m.created)
+            op_byname(m, op);
           break;
         case A_ADDR: {
           if (!m.created)
